@@ -11,7 +11,17 @@ import (
 
 // startScopeServer writes the workspace, starts a server on it and opens every file.
 func startScopeServer(c *Ctx, sw *ScopeWS, tag string) (*Workspace, *Server, error) {
-	ws := c.NewWorkspace(sw.FileMap())
+	fmAll := sw.FileMap()
+	fm0 := fmAll
+	if sw.Late != "" {
+		fm0 = map[string]string{}
+		for k, v := range fmAll {
+			if k != sw.Late {
+				fm0[k] = v
+			}
+		}
+	}
+	ws := c.NewWorkspace(fm0)
 	opts := ServerOpts{Root: ws.Root, Tag: tag}
 	if len(sw.Roots) > 0 {
 		opts.Root = filepath.Join(ws.Root, sw.Roots[0])
@@ -27,6 +37,24 @@ func startScopeServer(c *Ctx, sw *ScopeWS, tag string) (*Workspace, *Server, err
 		}
 		ws.Remove()
 		return nil, nil, err
+	}
+	if sw.Late != "" {
+		// the last file appears on disk now; the event batch names a file the server knows first and the new file last
+		ws.Write(sw.Late, fmAll[sw.Late])
+		var evs []interface{}
+		for _, f := range sw.Files {
+			if f.Rel != sw.Late {
+				evs = append(evs, map[string]interface{}{"uri": ws.URI(f.Rel), "type": 2})
+				break
+			}
+		}
+		evs = append(evs, map[string]interface{}{"uri": ws.URI(sw.Late), "type": 1})
+		srv.Notify("workspace/didChangeWatchedFiles", map[string]interface{}{"changes": evs})
+		if err := srv.Fence(); err != nil {
+			srv.Close()
+			ws.Remove()
+			return nil, nil, err
+		}
 	}
 	for _, f := range sw.Files {
 		srv.DidOpen(ws.URI(f.Rel), f.Text)
